@@ -4,7 +4,9 @@
 //! used in every reduction step (observed through verif_hook::install_pivots_callback; their order is
 //! hash dependent, so the model cannot re-derive them) followed by the final matrices, the
 //! forward_mat / backward_mat of every Trans and the tracked vectors as dense renderings.
-//! Formats: see ocaml/c08_driver.ml.
+//! Kinds: red (ChainReducer::reduce), cpx (ChainComplexBase::reduced), scr (script of public calls on a
+//! hand-initialised reducer), bad (malformed stream in script form: not a complex / inconsistent shapes /
+//! tracked vector of the wrong length).  Formats: see ocaml/c08_driver.ml.
 use num_bigint::BigInt;
 use num_traits::{One, Zero};
 use std::sync::{Arc, Mutex};
@@ -462,10 +464,17 @@ where
                 })
             })
         }
-        "scr" => {
+        "scr" | "bad" => {
+            // scr: ranks of the m+1 spaces, then the m matrices; bad: explicit (rows, cols) of every matrix
+            // (possibly inconsistent), then the matrices
             let m = tk.usize();
-            let dims: Vec<usize> = (0..=m).map(|_| tk.usize()).collect();
-            let ds: Vec<DM<R>> = (0..m).map(|p| tk.mat::<R>(dims[p + 1], dims[p])).collect();
+            let shapes: Vec<(usize, usize)> = if kind == "scr" {
+                let dims: Vec<usize> = (0..=m).map(|_| tk.usize()).collect();
+                (0..m).map(|p| (dims[p + 1], dims[p])).collect()
+            } else {
+                (0..m).map(|_| { let a = tk.usize(); let b = tk.usize(); (a, b) }).collect()
+            };
+            let ds: Vec<DM<R>> = (0..m).map(|p| tk.mat::<R>(shapes[p].0, shapes[p].1)).collect();
             let wts: Vec<bool> = (0..m).map(|_| tk.next() == "1").collect();
             let vecs: Vec<Vec<Vec<R>>> = (0..=m)
                 .map(|_| {
@@ -569,7 +578,7 @@ where
     let threads = *r.pick(&[1usize, 1, 2, 2, 3, 4, 8, 16, 16]);
     let deg: isize = if r.bool() { 1 } else { -1 };
     let nsp = 1 + r.below(6) as usize; // lengths 1..6
-    let maxdim = if thorough { *r.pick(&[2usize, 4, 6, 8, 10]) } else { *r.pick(&[2usize, 3, 4, 6, 8]) };
+    let maxdim = if thorough { *r.pick(&[2usize, 4, 6, 8, 10, 12]) } else { *r.pick(&[2usize, 3, 4, 6, 8]) };
     let maxdim = if R::MACHINE { maxdim.min(6) } else { maxdim };
     let mix = *r.pick(&[0usize, 0, 1, 1, 2, 3]);
     let mix = if R::MACHINE { mix.min(1) } else { mix };
@@ -578,13 +587,14 @@ where
     let kind = match r.below(10) {
         0..=2 => "red",
         3..=4 => "cpx",
-        _ => "scr",
+        5..=8 => "scr",
+        _ => "bad",
     };
     // the generator's own arithmetic is guarded as well
     let (dims, ds) = guarded(|| rand_complex::<R>(r, nsp, maxdim, mix, unit_pct, scale))?;
     let mats = ds.iter().map(|d| d.show()).collect::<Vec<_>>().join(" ");
     let dimstr = dims.iter().map(|d| d.to_string()).collect::<Vec<_>>().join(" ");
-    if kind != "scr" {
+    if kind == "red" || kind == "cpx" {
         return Some(format!("{kind} {ring} {threads} {deg} {nsp} {dimstr} {mats}").split_whitespace().collect::<Vec<_>>().join(" "));
     }
     // script mode: spaces C_0..C_{nsp-1}, then C_nsp = 0 (closed); matrices at positions 0..nsp-1
@@ -593,13 +603,32 @@ where
     dims2.push(0);
     let all_trans = r.chance(4, 5);
     let wts: Vec<&str> = (0..m).map(|_| if all_trans || r.bool() { "1" } else { "0" }).collect();
+    // malformed stream ("bad"): not a complex / inconsistent shapes / a tracked vector of the wrong length
+    let corrupt = if kind == "bad" { 1 + r.below(3) as usize } else { 0 };
+    let cp = r.below(m as u64) as usize; // the corrupted position
+    let mut ds = ds;
+    ds.push(DM::<R>::zero(0, dims2[m - 1])); // the closing map C_(m-1) -> 0
+    let mut shapes: Vec<(usize, usize)> = (0..m).map(|p| (dims2[p + 1], dims2[p])).collect();
+    if corrupt == 1 || corrupt == 2 {
+        if corrupt == 2 {
+            if r.bool() { shapes[cp].0 += 1 } else { shapes[cp].1 += 1 }
+        }
+        let (a, b) = shapes[cp];
+        let mut d = DM::<R>::zero(a, b);
+        for i in 0..a { for j in 0..b { if r.chance(1, 2) { d.set(i, j, R::small(r)); } } }
+        if a > 0 && b > 0 && r.bool() { d.set(0, 0, R::unit(r)); }
+        ds[cp] = d;
+    }
+    let mats = ds.iter().map(|d| d.show()).collect::<Vec<_>>().join(" ");
     let mut vtoks = vec![];
     for p in 0..=m {
-        let k = if r.chance(1, 2) { 0 } else { 1 + r.below(2) as usize };
+        let wrong = corrupt == 3 && (p == cp || p == cp + 1);
+        let k = if wrong { 1 } else if r.chance(1, 2) { 0 } else { 1 + r.below(2) as usize };
         vtoks.push(k.to_string());
         for _ in 0..k {
-            vtoks.push(dims2[p].to_string());
-            for _ in 0..dims2[p] {
+            let l = if wrong { dims2[p] + 1 } else { dims2[p] };
+            vtoks.push(l.to_string());
+            for _ in 0..l {
                 vtoks.push(R::small(r).show());
             }
         }
@@ -630,9 +659,14 @@ where
             _ => ops.push(format!("all {}", r.below(2))),
         }
     }
+    let shape_str = if kind == "bad" {
+        shapes.iter().map(|(a, b)| format!("{a} {b}")).collect::<Vec<_>>().join(" ")
+    } else {
+        dims2.iter().map(|d| d.to_string()).collect::<Vec<_>>().join(" ")
+    };
     let line = format!(
-        "scr {ring} {threads} {deg} {m} {} {mats} {} {} {} {} {} {}",
-        dims2.iter().map(|d| d.to_string()).collect::<Vec<_>>().join(" "),
+        "{kind} {ring} {threads} {deg} {m} {} {mats} {} {} {} {} {} {}",
+        shape_str,
         wts.join(" "),
         vtoks.join(" "),
         supp.len(),
@@ -640,7 +674,6 @@ where
         ops.len(),
         ops.join(" ")
     );
-    let _ = ds.iter().all(|d| d.is_zero());
     Some(line.split_whitespace().collect::<Vec<_>>().join(" "))
 }
 
@@ -666,7 +699,7 @@ fn main() {
         Mode::Gen { seed, thorough, out } => {
             let mut o = Out::new(&out);
             let mut r = Rng::new(seed);
-            let n = if thorough { 12000 } else { 1500 };
+            let n = if thorough { 120000 } else { 20000 };
             let mut dropped = 0usize;
             for k in 0..n {
                 let ring = ["Z", "ZB", "Q", "QB", "F2", "F3", "ZH"][k % 7];
